@@ -7,6 +7,16 @@ ALL = ["C%02d" % i for i in range(1, 21)]
 
 # id -> (level category, engine, technique, level text, level note, design ref)
 CLAIMED = {
+    "C10": ("exploration", "I",
+            "bounded-exhaustive enumeration: message product (10 CIDs x every address list of <=3 over a 5-symbol alphabet x 5 extra-data values x orig peer) through CBOR and JSON; real HTTP sender (CBOR/JSON) and pubsub sender against receivers over an in-memory network; CBOR decoder fed every single-byte substitution, truncation, every CBOR header token at every offset singly and in pairs, lengths at/above every cap and all strings of <=2 bytes, in an isolated worker with allocation metering",
+            "Round-trip equality, sender-to-receiver equality (decoded the way a receiver does) and decoder totality (no panic, no process death, allocation within input + 2 x 2 MiB + 256 KiB, accepted input survives re-encoding) are checked on every enumerated case of the real code.",
+            "cbor-gen primitives, go-multiaddr and encoding/json are trusted; decoder inputs are within two tokens of a valid message.",
+            "DESIGN.md 6/C10"),
+    "C13": ("exploration", "I",
+            "bounded-exhaustive enumeration: structural product of advertisements (5184 shapes) and entry chunks (170) through DAG-JSON and DAG-CBOR, stored twice through Linkproto, loaded with typed and generic prototypes; decoders fed every single-byte substitution, truncation, CBOR header / JSON structural token at every offset of a 12-block corpus and all strings of <=2 bytes",
+            "decode(encode(v)) is compared semantically (absent vs present optional parts kept) for every enumerated value; CID stability and prefix; generic-vs-typed unwrap equality; every decoder input must yield an error or a re-encodable value and never a panic, on both the typed path and the generic-load + unwrap path.",
+            "go-ipld-prime codecs/bindnode are the trusted base; nil and empty are equal for non-optional fields; decoder inputs within one token of a valid block.",
+            "DESIGN.md 6/C13"),
     "C05": ("exploration", "I",
             "bounded-exhaustive enumeration of advertisements (structural product of optional parts, 0..3 extended providers with the main provider at every position), signer = / != provider, key types; per ad: verify, verify after DAG-JSON and DAG-CBOR round trips, 27 single-value mutations, every single-bit flip and field replacement inside every signature envelope, every assignment of signing keys {named, ad signer, unrelated} to the extended-provider entries",
             "The specification (verify iff no signed value changed, envelopes intact, main provider listed, every entry sealed by the identity it names / the ad signer for the main entry) is evaluated on every enumerated case against the real Sign/Verify code; values that no signature covers must keep verifying. Exhaustive key assignment is what reaches the foreign-key entry case.",
